@@ -5,7 +5,7 @@ import HL.Lemmas.LexExtentTok
   they are the remaining leaves a theorem for a larger part of G composes.
 
     scanInLineAt_status      `*` `!`
-    scanInLineAt_comment     `;` text up to the line feed
+    scanInLineAt_comment     `;` text up to the line end (LF or CR LF)
     scanInLineAt_at / _atAt  `@` / `@@`
     scanInLineAt_equals / _doubleEquals
     scanInLineAt_rparen, _lbracket, _rbracket, _pipe
@@ -24,35 +24,38 @@ local notation "LF" => (0x0A : UInt8)
 /-- a byte that is neither a line feed nor outside ASCII -/
 def lineByte (c : UInt8) : Bool := c != 0x0A
 
+/-- where a comment ends: end of input or a line end (LF, or CR LF) -/
+abbrev CommentStop (rest : Bytes) : Prop := StopsL (fun _ => true) rest
+
 theorem scanComment_over {z : Z} {body rest : Bytes} (hz : z.after = 0x3B :: (body ++ rest))
-    (hb : ∀ c ∈ body, c ≠ 0x0A ∧ c < 0x80) (hstop : Stops (fun c => c != 0x0A) rest) :
+    (hb : ∀ c ∈ body, c ≠ 0x0A ∧ c ≠ 0x0D ∧ c < 0x80) (hstop : CommentStop rest) :
     scanComment z = (tokAt .comment body z (body.length + 1), z.over (0x3B :: body) rest) := by
   unfold scanComment
   rw [advance_over hz (by decide)]
-  have h1 : advWhile (fun c => c != 0x0A) (z.over [0x3B] (body ++ rest)) =
+  have h1 : advLine (fun _ => true) (z.over [0x3B] (body ++ rest)) =
       (z.over [0x3B] (body ++ rest)).over body rest :=
-    advWhile_over _ rfl (fun c hc => ⟨by simpa using (hb c hc).1, (hb c hc).2⟩) hstop
+    advLine_over _ rfl (fun c hc => ⟨rfl, (hb c hc).2.2, (hb c hc).1, (hb c hc).2.1⟩) hstop
   simp only [h1, between_over]
   rw [over_over]
   simp [mkTok, tokAt, over_position]
 
-/-- **Comment** inside a line: `;` and everything up to the line feed (ASCII text). -/
+/-- **Comment** inside a line: `;` and everything up to the line end (ASCII text without CR). -/
 theorem scanInLineAt_comment (C : Classes) {z : Z} {body rest : Bytes} (hz : z.after = 0x3B :: (body ++ rest))
-    (hb : ∀ c ∈ body, c ≠ 0x0A ∧ c < 0x80) (hstop : Stops (fun c => c != 0x0A) rest) :
+    (hb : ∀ c ∈ body, c ≠ 0x0A ∧ c ≠ 0x0D ∧ c < 0x80) (hstop : CommentStop rest) :
     scanInLineAt C z = (tokAt .comment body z (body.length + 1), z.over (0x3B :: body) rest) := by
   unfold scanInLineAt
   simp only [hz]
-  rw [if_neg (by decide), if_pos (by decide)]
+  rw [if_neg (by simp [atEol]), if_pos (by decide)]
   exact scanComment_over hz hb hstop
 
 /-- **Comment line**: `;` in column 1. -/
 theorem next_comment_line (C : Classes) {z : Z} {body rest : Bytes} (hs : z.atStart = true) (hc : z.col = 1)
-    (hz : z.after = 0x3B :: (body ++ rest)) (hb : ∀ c ∈ body, c ≠ 0x0A ∧ c < 0x80)
-    (hstop : Stops (fun c => c != 0x0A) rest) :
+    (hz : z.after = 0x3B :: (body ++ rest)) (hb : ∀ c ∈ body, c ≠ 0x0A ∧ c ≠ 0x0D ∧ c < 0x80)
+    (hstop : CommentStop rest) :
     next C z = (tokAt .comment body z (body.length + 1), z.started.over (0x3B :: body) rest) := by
   unfold next
   simp only [hz, hs, hc, beq_self_eq_true, Bool.and_self, if_true]
-  unfold scanLineStart
+  unfold scanLineStart scanLineStartAt
   have hp : peek { z with atStart := false } = 0x3B := by simp [peek, hz]
   simp only [hp, beq_self_eq_true, if_true]
   exact scanComment_over (z := z.started) hz hb hstop
@@ -68,11 +71,11 @@ theorem scanInLineAt_status (C : Classes) {z : Z} {c : UInt8} {t : Bytes} (hz : 
   unfold scanInLineAt
   simp only [hz, hr]
   rcases hc with rfl | rfl
-  · rw [if_neg (by decide), if_neg (by decide), if_neg (by decide), if_neg (by decide), if_neg (by decide),
+  · rw [if_neg (by simp [atEol]), if_neg (by decide), if_neg (by decide), if_neg (by decide), if_neg (by decide),
       if_neg (by decide), if_neg (by decide), if_neg (by decide), if_neg (by decide), if_pos (by decide)]
     unfold scanStatus
     rw [advance_over hz hlt, hp, henc, mkTok_over]; rfl
-  · rw [if_neg (by decide), if_neg (by decide), if_neg (by decide), if_neg (by decide), if_neg (by decide),
+  · rw [if_neg (by simp [atEol]), if_neg (by decide), if_neg (by decide), if_neg (by decide), if_neg (by decide),
       if_neg (by decide), if_neg (by decide), if_neg (by decide), if_neg (by decide), if_pos (by decide)]
     unfold scanStatus
     rw [advance_over hz hlt, hp, henc, mkTok_over]; rfl
@@ -82,7 +85,7 @@ theorem scanInLineAt_at (C : Classes) {z : Z} {t : Bytes} (hz : z.after = 0x40 :
     scanInLineAt C z = (tokAt .at [0x40] z 1, z.over [0x40] t) := by
   unfold scanInLineAt
   simp only [hz]
-  rw [if_neg (by decide), if_neg (by decide), if_neg (by decide), if_neg (by decide), if_neg (by decide),
+  rw [if_neg (by simp [atEol]), if_neg (by decide), if_neg (by decide), if_neg (by decide), if_neg (by decide),
     if_neg (by decide), if_neg (by decide), if_pos (by decide)]
   unfold scanAt
   rw [advance_over hz (by decide)]
@@ -94,7 +97,7 @@ theorem scanInLineAt_atAt (C : Classes) {z : Z} {t : Bytes} (hz : z.after = 0x40
     scanInLineAt C z = (tokAt .atAt [0x40, 0x40] z 2, z.over [0x40, 0x40] t) := by
   unfold scanInLineAt
   simp only [hz]
-  rw [if_neg (by decide), if_neg (by decide), if_neg (by decide), if_neg (by decide), if_neg (by decide),
+  rw [if_neg (by simp [atEol]), if_neg (by decide), if_neg (by decide), if_neg (by decide), if_neg (by decide),
     if_neg (by decide), if_neg (by decide), if_pos (by decide)]
   unfold scanAt
   rw [advance_over hz (by decide)]
@@ -107,7 +110,7 @@ theorem scanInLineAt_equals (C : Classes) {z : Z} {t : Bytes} (hz : z.after = 0x
     scanInLineAt C z = (tokAt .equals [0x3D] z 1, z.over [0x3D] t) := by
   unfold scanInLineAt
   simp only [hz]
-  rw [if_neg (by decide), if_neg (by decide), if_neg (by decide), if_neg (by decide), if_neg (by decide),
+  rw [if_neg (by simp [atEol]), if_neg (by decide), if_neg (by decide), if_neg (by decide), if_neg (by decide),
     if_neg (by decide), if_neg (by decide), if_neg (by decide), if_pos (by decide)]
   unfold scanEquals
   rw [advance_over hz (by decide)]
@@ -119,7 +122,7 @@ theorem scanInLineAt_doubleEquals (C : Classes) {z : Z} {t : Bytes} (hz : z.afte
     scanInLineAt C z = (tokAt .doubleEquals [0x3D, 0x3D] z 2, z.over [0x3D, 0x3D] t) := by
   unfold scanInLineAt
   simp only [hz]
-  rw [if_neg (by decide), if_neg (by decide), if_neg (by decide), if_neg (by decide), if_neg (by decide),
+  rw [if_neg (by simp [atEol]), if_neg (by decide), if_neg (by decide), if_neg (by decide), if_neg (by decide),
     if_neg (by decide), if_neg (by decide), if_neg (by decide), if_pos (by decide)]
   unfold scanEquals
   rw [advance_over hz (by decide)]
@@ -136,7 +139,7 @@ theorem scanInLineAt_rparen (C : Classes) {z : Z} {t : Bytes} (hz : z.after = 0x
     scanInLineAt C z = (tokAt .rparen [0x29] z 1, z.over [0x29] t) := by
   unfold scanInLineAt
   simp only [hz]
-  rw [if_neg (by decide), if_neg (by decide), if_neg (by decide), if_pos (by decide)]
+  rw [if_neg (by simp [atEol]), if_neg (by decide), if_neg (by decide), if_pos (by decide)]
   exact punct_over _ _ hz (by decide)
 
 /-- **`[`**. -/
@@ -144,7 +147,7 @@ theorem scanInLineAt_lbracket (C : Classes) {z : Z} {t : Bytes} (hz : z.after = 
     scanInLineAt C z = (tokAt .lbracket [0x5B] z 1, z.over [0x5B] t) := by
   unfold scanInLineAt
   simp only [hz]
-  rw [if_neg (by decide), if_neg (by decide), if_neg (by decide), if_neg (by decide), if_pos (by decide)]
+  rw [if_neg (by simp [atEol]), if_neg (by decide), if_neg (by decide), if_neg (by decide), if_pos (by decide)]
   exact punct_over _ _ hz (by decide)
 
 /-- **`]`**. -/
@@ -152,7 +155,7 @@ theorem scanInLineAt_rbracket (C : Classes) {z : Z} {t : Bytes} (hz : z.after = 
     scanInLineAt C z = (tokAt .rbracket [0x5D] z 1, z.over [0x5D] t) := by
   unfold scanInLineAt
   simp only [hz]
-  rw [if_neg (by decide), if_neg (by decide), if_neg (by decide), if_neg (by decide), if_neg (by decide),
+  rw [if_neg (by simp [atEol]), if_neg (by decide), if_neg (by decide), if_neg (by decide), if_neg (by decide),
     if_pos (by decide)]
   exact punct_over _ _ hz (by decide)
 
@@ -161,7 +164,7 @@ theorem scanInLineAt_pipe (C : Classes) {z : Z} {t : Bytes} (hz : z.after = 0x7C
     scanInLineAt C z = (tokAt .pipe [0x7C] z 1, z.over [0x7C] t) := by
   unfold scanInLineAt
   simp only [hz]
-  rw [if_neg (by decide), if_neg (by decide), if_neg (by decide), if_neg (by decide), if_neg (by decide),
+  rw [if_neg (by simp [atEol]), if_neg (by decide), if_neg (by decide), if_neg (by decide), if_neg (by decide),
     if_neg (by decide), if_pos (by decide)]
   exact punct_over _ _ hz (by decide)
 
@@ -171,7 +174,7 @@ theorem scanInLineAt_dollar (C : Classes) {z : Z} {t : Bytes} (hz : z.after = 0x
   have hr : peekRune z = 0x24 := by simp [peekRune, hz, decodeRune]
   unfold scanInLineAt
   simp only [hz, hr]
-  rw [if_neg (by decide), if_neg (by decide), if_neg (by decide), if_neg (by decide), if_neg (by decide),
+  rw [if_neg (by simp [atEol]), if_neg (by decide), if_neg (by decide), if_neg (by decide), if_neg (by decide),
     if_neg (by decide), if_neg (by decide), if_neg (by decide), if_neg (by decide), if_neg (by decide),
     if_pos (by decide)]
   unfold scanCurrencySymbol
@@ -179,22 +182,22 @@ theorem scanInLineAt_dollar (C : Classes) {z : Z} {t : Bytes} (hz : z.after = 0x
   simp only [hd]
   rw [bump_over hz, mkTok_over]; rfl
 
-/-- **Quoted commodity**: `"` text `"` (ASCII text without `"` and line feed). -/
+/-- **Quoted commodity**: `"` text `"` (ASCII text without `"`, CR and LF). -/
 theorem scanInLineAt_quoted (C : Classes) {z : Z} {q t : Bytes} (hz : z.after = 0x22 :: (q ++ 0x22 :: t))
-    (hq : ∀ c ∈ q, c ≠ 0x22 ∧ c ≠ 0x0A ∧ c < 0x80) :
+    (hq : ∀ c ∈ q, c ≠ 0x22 ∧ c ≠ 0x0A ∧ c ≠ 0x0D ∧ c < 0x80) :
     scanInLineAt C z = (tokAt .commodity q z (q.length + 2), z.over (0x22 :: (q ++ [0x22])) t) := by
   have hr : peekRune z = 0x22 := by simp [peekRune, hz, decodeRune]
   unfold scanInLineAt
   simp only [hz, hr]
-  rw [if_neg (by decide), if_neg (by decide), if_neg (by decide), if_neg (by decide), if_neg (by decide),
+  rw [if_neg (by simp [atEol]), if_neg (by decide), if_neg (by decide), if_neg (by decide), if_neg (by decide),
     if_neg (by decide), if_neg (by decide), if_neg (by decide), if_neg (by decide), if_neg (by decide),
     if_neg (by decide), if_pos (by decide)]
   unfold scanQuotedCommodity
   rw [advance_over hz (by decide)]
-  have h1 : advWhile (fun c => c != 0x22 && c != 0x0A) (z.over [0x22] (q ++ 0x22 :: t)) =
+  have h1 : advLine (fun c => c != 0x22) (z.over [0x22] (q ++ 0x22 :: t)) =
       (z.over [0x22] (q ++ 0x22 :: t)).over q (0x22 :: t) :=
-    advWhile_over _ rfl (fun c hc => ⟨by simp [(hq c hc).1, (hq c hc).2.1], (hq c hc).2.2⟩)
-      (Stops.cons _ (by decide))
+    advLine_over _ rfl (fun c hc => ⟨by simp [(hq c hc).1], (hq c hc).2.2.2, (hq c hc).2.1, (hq c hc).2.2.1⟩)
+      (StopsL.cons _ (by decide))
   simp only [h1, between_over]
   have h2 : advIf (· == 0x22) ((z.over [0x22] (q ++ 0x22 :: t)).over q (0x22 :: t)) =
       ((z.over [0x22] (q ++ 0x22 :: t)).over q (0x22 :: t)).over [0x22] t := by
@@ -226,23 +229,23 @@ theorem lvaGo_colon (p t : Bytes) (hp : ∀ c ∈ p, c ≠ 0x29 ∧ c ≠ 0x0A) 
     · rfl
     · exact ih (fun x hx => hp x (by simp [hx]))
 
-/-- **Code**: `(` code `)` with no colon inside (ASCII). -/
+/-- **Code**: `(` code `)` with no colon inside (ASCII without CR). -/
 theorem scanInLineAt_code (C : Classes) {z : Z} {code t : Bytes} (hz : z.after = 0x28 :: (code ++ 0x29 :: t))
-    (hc : ∀ c ∈ code, c ≠ 0x29 ∧ c ≠ 0x0A ∧ c ≠ 0x3A ∧ c < 0x80) :
+    (hc : ∀ c ∈ code, c ≠ 0x29 ∧ c ≠ 0x0A ∧ c ≠ 0x0D ∧ c ≠ 0x3A ∧ c < 0x80) :
     scanInLineAt C z = (tokAt .code code z (code.length + 2), z.over (0x28 :: (code ++ [0x29])) t) := by
   have hlva : looksLikeVirtualAccount z.after = false := by
     rw [hz]; simp only [looksLikeVirtualAccount, List.drop_one, List.tail_cons]
-    exact lvaGo_noColon code t (fun c h => (hc c h).2.2.1)
+    exact lvaGo_noColon code t (fun c h => (hc c h).2.2.2.1)
   unfold scanInLineAt
   simp only [hz]
-  rw [if_neg (by decide), if_neg (by decide), if_pos (by decide), ← hz, hlva]
+  rw [if_neg (by simp [atEol]), if_neg (by decide), if_pos (by decide), ← hz, hlva]
   simp only [Bool.false_eq_true, if_false]
   unfold scanCode
   rw [advance_over hz (by decide)]
-  have h1 : advWhile (fun c => c != 0x29 && c != 0x0A) (z.over [0x28] (code ++ 0x29 :: t)) =
+  have h1 : advLine (fun c => c != 0x29) (z.over [0x28] (code ++ 0x29 :: t)) =
       (z.over [0x28] (code ++ 0x29 :: t)).over code (0x29 :: t) :=
-    advWhile_over _ rfl (fun c h => ⟨by simp [(hc c h).1, (hc c h).2.1], (hc c h).2.2.2⟩)
-      (Stops.cons _ (by decide))
+    advLine_over _ rfl (fun c h => ⟨by simp [(hc c h).1], (hc c h).2.2.2.2, (hc c h).2.1, (hc c h).2.2.1⟩)
+      (StopsL.cons _ (by decide))
   simp only [h1, between_over]
   have h2 : advIf (· == 0x29) ((z.over [0x28] (code ++ 0x29 :: t)).over code (0x29 :: t)) =
       ((z.over [0x28] (code ++ 0x29 :: t)).over code (0x29 :: t)).over [0x29] t := by
@@ -261,7 +264,7 @@ theorem scanInLineAt_lparen (C : Classes) {z : Z} {p t : Bytes} (hz : z.after = 
     exact lvaGo_colon p t hp
   unfold scanInLineAt
   simp only [hz]
-  rw [if_neg (by decide), if_neg (by decide), if_pos (by decide), ← hz, hlva]
+  rw [if_neg (by simp [atEol]), if_neg (by decide), if_pos (by decide), ← hz, hlva]
   simp only [if_true]
   exact punct_over _ _ hz (by decide)
 
@@ -283,16 +286,16 @@ theorem next_directive (C : Classes) {z : Z} {kw rest : Bytes} (hs : z.atStart =
   simp only [hc0, Bool.not_true, Bool.false_or, Bool.and_eq_true, decide_eq_true_eq, bne_iff_ne, ne_eq,
     Bool.not_eq_true'] at hf
   obtain ⟨⟨⟨⟨⟨⟨⟨⟨⟨⟨⟨⟨⟨⟨⟨⟨⟨hlt, h1⟩, h2⟩, _⟩, _⟩, _⟩, _⟩, _⟩, _⟩, _⟩, _⟩, _⟩, _⟩, _⟩, _⟩, _⟩, h16⟩, h17⟩ := hf
-  have hw : (isWhitespace c && c != 0x0A) = false := by
-    have : ∀ x : UInt8, (!isLetter x || !(isWhitespace x && x != 0x0A)) = true := forall_uint8 _ (by decide +kernel)
+  have hw : isWhitespace c = false := by
+    have : ∀ x : UInt8, (!isLetter x || !isWhitespace x) = true := forall_uint8 _ (by decide +kernel)
     have := this c
     simp only [hc0, Bool.not_true, Bool.false_or, Bool.not_eq_true'] at this
     exact this
   unfold next
   simp only [hz', hs, hc, beq_self_eq_true, Bool.and_self, if_true]
-  unfold scanLineStart
+  unfold scanLineStart scanLineStartAt
   have hp : peek { z with atStart := false } = c := by simp [peek, hz']
-  simp only [hp, hw, h16, hc0, Bool.false_eq_true, if_false, if_true]
+  simp only [hp, hw, h16, hc0, Bool.false_and, Bool.false_eq_true, if_false, if_true]
   rw [if_neg (by simpa using h2)]
   unfold scanDirectiveOrAccount
   have he : advWhile isLetter z.started = z.started.over (c :: t) rest :=
